@@ -123,26 +123,26 @@ type savedRound struct {
 }
 
 type storeRun struct {
-	prop     string // "C03" | "C04" | "C05" | "" (all)
-	dir      string
-	pndb     *util.PNodeDB
-	tries    map[int]*trieH
-	version  int64
-	saved    []savedRound
-	pruned   int64 // roots at versions below this are no longer retained
-	roundOps []string
+	prop         string // "C03" | "C04" | "C05" | "" (all)
+	dir          string
+	pndb         *util.PNodeDB
+	tries        map[int]*trieH
+	version      int64
+	saved        []savedRound
+	pruned       int64 // roots at versions below this are no longer retained
+	roundOps     []string
 	mergeOverlap bool // matcher of known finding C03-merge-order fired in this case
-	light    bool // op `light`: no per-operation frame/view re-reads after ins/del (large histories)
-	sub      bool // replaying a round on a cloned store: no output checks, no nested enumeration
-	fails    []string
-	tags     map[string]bool
-	opIdx    int
-	opText   string
-	ntMerges int
-	ntSaves  int
-	ntDead   int
-	ntPrune  int
-	bigDead  int
+	light        bool // op `light`: no per-operation frame/view re-reads after ins/del (large histories)
+	sub          bool // replaying a round on a cloned store: no output checks, no nested enumeration
+	fails        []string
+	tags         map[string]bool
+	opIdx        int
+	opText       string
+	ntMerges     int
+	ntSaves      int
+	ntDead       int
+	ntPrune      int
+	bigDead      int
 }
 
 func cloneMap(m map[string][]byte) map[string][]byte {
@@ -741,6 +741,12 @@ func (s *storeRun) exec(op string) string {
 		})
 		for j := range valBuf {
 			valBuf[j] ^= 0xff
+		}
+		if os.Getenv("VERIF_SCRIBBLE_PATH") != "" {
+			// diagnostic only (see notes/C03.md): Insert keeps references into the caller's path slice
+			for j := range pathBuf {
+				pathBuf[j] = 'f'
+			}
 		}
 		_, present := t.content[path]
 		switch {
